@@ -199,6 +199,23 @@ def judge(case, obs, res):
         return "err"
     want, cyclic, collision = expected_map(root, case["paths"], algs, case["lstrip"])
     feats = "+".join(sorted(m["features"]))
+    if cyclic and case["lstrip"] and collision is None:
+        # a cycle gives every file many aliased paths; with a strip-prefix two aliases (or, deeper in the unrolling, two
+        # different files) may receive one key.  How deep a cycle is unrolled is not fixed by the property, so a collision
+        # that exists only among deeper unrollings makes both outcomes acceptable.
+        try:
+            tw, _ = ref_walk(root, case["paths"], algs, max_repeat=3)
+            seen = {}
+            for tp in tw:
+                k = lstrip_key(tp, case["lstrip"])
+                if k in seen and seen[k] != tp:
+                    collision = "unrolling"
+                    break
+                seen[k] = tp
+        except TooBig:
+            collision = "unrolling"
+    if collision == "unrolling":
+        return "either"
     if "err" in obs:
         if collision == "distinct":
             return "collision_reported"
